@@ -354,6 +354,17 @@ pub fn run(r: &mut Rec) {
             // moderate exponents
             fs.push(f64::from_bits((bits & 0x800f_ffff_ffff_ffff) | ((1000 + rng.below(140)) << 52)));
         }
+        // every power of two up to 2^130 and the ends of the range, with the neighbouring floats on both sides, both signs:
+        // a fast path keyed on a primitive's range is wrong exactly at such an edge
+        let mut ks: Vec<i32> = (0..=130).collect();
+        ks.extend([255, 256, 511, 512, 1000, 1022, 1023]);
+        for k in ks {
+            let p = f64::from_bits(((1023 + k) as u64) << 52);
+            for f in [p, f64::from_bits(p.to_bits() - 1), f64::from_bits(p.to_bits() + 1)] {
+                fs.push(f);
+                fs.push(-f);
+            }
+        }
         for f in fs {
             from_f64_all(r, f);
         }
@@ -362,6 +373,13 @@ pub fn run(r: &mut Rec) {
         for _ in 0..(if r.thorough { 200 } else { 40 }) {
             gs.push(f32::from_bits(rng.next() as u32));
             gs.push(f32::from_bits(((rng.next() as u32) & 0x807f_ffff) | ((120 + rng.below(40) as u32) << 23)));
+        }
+        for k in 0..=127u32 {
+            let p = f32::from_bits((127 + k) << 23);
+            for f in [p, f32::from_bits(p.to_bits() - 1), f32::from_bits(p.to_bits() + 1)] {
+                gs.push(f);
+                gs.push(-f);
+            }
         }
         for f in gs {
             from_f32_all(r, f);
